@@ -288,6 +288,11 @@ def checkLoopBody (g : RGlobals) (resTy : Ty) : List LoopStmt → Bool → Bool 
     | .cont => checkLoopBody g resTy tl rc bc true s
 end
 
+/-- B11 on a function-level return whose expression has type `t` -/
+def checkFnRetTail (g : RGlobals) (resTy : Ty) (e : Expr) (t : Ty) (s : RS) : RS :=
+  let s := if !typeRegistered g t then s.viol "B11-type" .typeNotFound e.show else s
+  if t ≠ resTy then s.viol "B11" .wrongReturnType e.show else s
+
 /-- function-level `Return` / `Expression` statement: expression, B12, B11 -/
 def checkFnRet (g : RGlobals) (resTy : Ty) (e : Expr) (rc : Bool) (s : RS) : RS × Bool :=
   let (vs, t) := checkExpr g s.scope e
@@ -295,10 +300,7 @@ def checkFnRet (g : RGlobals) (resTy : Ty) (e : Expr) (rc : Bool) (s : RS) : RS 
   let s := if rc then s.viol "B12-twice" .returnAlreadyCalled e.show else s
   match t with
   | none => (s, rc)
-  | some t =>
-    let s := if !typeRegistered g t then s.viol "B11-type" .typeNotFound e.show else s
-    let s := if t ≠ resTy then s.viol "B11" .wrongReturnType e.show else s
-    (s, true)
+  | some t => (checkFnRetTail g resTy e t s, true)
 
 def checkBody (g : RGlobals) (resTy : Ty) : List BodyStmt → Bool → RS → RS × Bool
   | [], rc, s => (s, rc)
